@@ -26,17 +26,19 @@ class HasFloor (α : Type) where
 
 instance : HasFloor Rat := ⟨Rat.floor⟩
 
-/-- `memo n f` tabulates `f 0 … f (n-1)` once and answers from the table (falls back to `f` outside);
-it is extensionally `f` (`memo_eq`). Keeps the evaluation of the model linear. -/
-def memo {β : Type} (n : Nat) (f : Nat → β) : Nat → β :=
-  let a := Array.ofFn (n := n) fun i => f i.val
-  fun c => match a[c]? with
-    | some v => v
-    | none => f c
+/-- `table n f` tabulates `f 0 … f (n-1)`; `lookup (table n f) f` answers from the table and falls
+back to `f` outside it, so it is extensionally `f` (`lookup_table`).  The table is an explicit value so
+that it is computed once per `quantize` call (keeps the evaluation of the model linear). -/
+def table {β : Type} (n : Nat) (f : Nat → β) : Array β := Array.ofFn (n := n) fun i => f i.val
 
-theorem memo_eq {β : Type} (n : Nat) (f : Nat → β) : memo n f = f := by
+def lookup {β : Type} (a : Array β) (f : Nat → β) (c : Nat) : β :=
+  match a[c]? with
+  | some v => v
+  | none => f c
+
+theorem lookup_table {β : Type} (n : Nat) (f : Nat → β) : lookup (table n f) f = f := by
   funext c
-  simp only [memo, Array.getElem?_ofFn]
+  simp only [lookup, table, Array.getElem?_ofFn]
   split <;> rename_i h
   · split at h
     · injection h with h; exact h.symm
@@ -96,10 +98,11 @@ def pre (ed : Bool) (x : Nat → Nat → α) : Nat → Nat → α := if ed then 
 /-- `QuantizedValue.quantize` with `num_buckets = N` on a `rows × cols` matrix view -/
 def quantize (N rows cols : Nat) (ed : Bool) (x : Nat → Nat → α) : QV α :=
   let y := pre ed x
-  let b := memo cols fun c => bucketSize N (column rows y c)
-  { q := fun i c => quantEntry (b c) (y i c)
+  let f := fun c => bucketSize N (column rows y c)
+  let tab := table cols f
+  { q := fun i c => quantEntry (lookup tab f c) (y i c)
     diag := fun i => if ed then x i i else 0
-    bucket := b }
+    bucket := lookup tab f }
 
 /-- `QuantizedValue.to_float` -/
 def dequantize (ed : Bool) (v : QV α) : Nat → Nat → α :=
